@@ -22,8 +22,8 @@ type tree struct {
 	K     string // num | str | null | arr | obj
 	N     int
 	S     string
-	Elems []*tree   // arr
-	Keys  []string  // obj (parallel to Elems)
+	Elems []*tree  // arr
+	Keys  []string // obj (parallel to Elems)
 }
 
 func treeFromTLA(v interface{}) *tree {
